@@ -2,6 +2,7 @@
 # usage: tools/run_all.sh [quick|thorough]  — every check in turn on /repo's current tree; one line each
 tier=${1:-quick}
 cd "$(dirname "$0")/.."
+mkdir -p work replays evidence
 fail=0
 for i in $(seq -w 1 20); do
   id=C$i
